@@ -49,7 +49,10 @@ func VerifC01_type2_honest() {
 }
 
 func t2Setup() (*BasicPublicIssuer, BasicPublicTokenRequestState, []byte, []byte, []byte) {
-	issuer := t2Issuer()
+	return t2SetupWith(t2Issuer())
+}
+
+func t2SetupWith(issuer *BasicPublicIssuer) (*BasicPublicIssuer, BasicPublicTokenRequestState, []byte, []byte, []byte) {
 	challenge := vBytesC("challenge", 0, 1)
 	nonce := vBytes("nonce", 32, 32)
 	keyID := issuer.TokenKeyID()
@@ -90,14 +93,14 @@ func VerifC02_type2_client_rejects() {
 
 func VerifC02_type2_success_implies_valid() {
 	vUnwind(8)
-	issuer, st, challenge, nonce, keyID := t2Setup()
+	issuer, st, challenge, nonce, keyID := t2SetupWith(t2IssuerAnySize())
 	var resp []byte
 	if vBool("honest") {
 		r, err := issuer.Evaluate(st.Request())
 		vAssume(err == nil)
 		resp = r
 	} else {
-		resp = vBytes("resp", 255, 257)
+		resp = vBytesC("resp", 255, 257)
 	}
 	tok, err := st.FinalizeToken(resp)
 	if err != nil {
